@@ -537,5 +537,67 @@ def rule_h(prog, rep):
     rep.floor('C13.h', n, 2, 'socket serve loops')
 
 
-RULES = [('C13.h', rule_h), ('C13.a', rule_a), ('C13.b', rule_b), ('C13.c', rule_c), ('C13.d', rule_d), ('C13.e', rule_e), ('C13.f', rule_f),
+def rule_i(prog, rep):
+    rep.rule('C13.i', 'T3+T4', 'the core answers every request exactly once: in process_api_call (regular mode) and in the follower\'s '
+             'process_api_call every arm whose WbFunction variant carries an answer channel (a oneshot::Sender field) sends into '
+             'that channel exactly once on every path through the arm; a handler whose answer channel is dropped unanswered '
+             'ends the session instead of answering')
+    from .c02 import api_match
+    crate = prog.crate(WB)
+    adt = crate.adt('server::common::WbFunction')
+    sender_idx = {}
+    for v in adt['variants']:
+        idx = [i_ for i_, fl in enumerate(v['fields']) if 'oneshot::Sender' in fl['ty']]
+        if idx:
+            sender_idx[v['name']] = idx[0]
+    n = 0
+    for fname in ('process_api_call', 'leader_follower::follower::process_api_call'):
+        f = crate.fn(fname)
+        m = api_match(crate, f)
+        for arm in m['arms']:
+            vs = [short(v) for v in pat_variants(arm['pat'])]
+            if len(vs) != 1 or vs[0] not in sender_idx:
+                continue
+            sv = vs[0]
+            pat = arm['pat']
+            while pat.get('k') in ('pguard',):
+                pat = pat['pat']
+            args = pat.get('args') or []
+            if pat.get('k') != 'pctor' or sender_idx[sv] >= len(args):
+                rep.violation('C13.i', f'{short(fname)}:{sv}', f'{f.file}:{arm.get("ln")}', 'unrecognised-shape: variant pattern', key=f'C13.i/{fname}/{sv}/shape')
+                continue
+            sb = args[sender_idx[sv]]
+            if sb.get('k') != 'bind':
+                # the answer channel is not even bound (`_`): nobody can answer
+                rep.violation('C13.i', f'{short(fname)}:{sv}', f'{f.file}:{arm.get("ln")}', 'the answer channel of the request is not bound: the request is never answered',
+                              key=f'C13.i/{fname}/{sv}/unbound')
+                continue
+            sid = sb['id']
+
+            def classify(nd, anc, sid=sid):
+                if nd.get('k') == 'call' and short(callee(nd)) == 'send' and nd['args']:
+                    a0 = nd['args'][0]
+                    while a0.get('k') in ('ref',):
+                        a0 = a0['e']
+                    if a0.get('k') == 'path' and a0.get('id') == sid:
+                        return 'answer'
+                    return None
+                if nd.get('k') == 'call' and nd['args'] and any(x.get('k') == 'path' and x.get('id') == sid for x in nd['args']):
+                    return 'handoff'     # the channel is passed on (e.g. export_for_persistence(tx)): answered there
+                return None
+            tr = Tracer(crate, classify, closure_mode=lambda c_, cl: 'inline')
+            tr.env = {}
+            bp = tr.expr(arm['body'])
+            n += 1
+            bad = [t for (ex, t, v) in bp if ex in ('fall', 'ret') and len([x for x in t if base(x) in ('answer', 'handoff') and '@' not in x]) != 1]
+            if bad:
+                cnt = len([x for x in bad[0] if base(x) in ('answer', 'handoff') and '@' not in x])
+                rep.violation('C13.i', f'{short(fname)}:{sv}', f'{f.file}:{arm.get("ln")}', f'a path through the arm answers {cnt} times',
+                              key=f'C13.i/{fname}/{sv}/answers={cnt}', expected='exactly one send into the answer channel')
+            else:
+                rep.ok('C13.i', f'{short(fname)}:{sv}', f'{f.file}:{arm.get("ln")}', 'answers exactly once on every path')
+    rep.floor('C13.i', n, 40, 'arms with an answer channel (regular + follower)')
+
+
+RULES = [('C13.i', rule_i), ('C13.h', rule_h), ('C13.a', rule_a), ('C13.b', rule_b), ('C13.c', rule_c), ('C13.d', rule_d), ('C13.e', rule_e), ('C13.f', rule_f),
          ('C13.g', rule_g)]
